@@ -279,7 +279,6 @@ func StructBuilder(env *Zlisp, name string,
 
 	//Q("good: have struct name '%v'", symN)
 
-	env.datastack.PushExpr(SexpNull)
 	structName := symN.name
 
 	{
